@@ -21,6 +21,7 @@ type SpecEnv struct {
 	ctx   string
 	shift map[string]Term // bound variable -> slice offset it is shifted by (absolute-index form)
 	pats  *[]string
+	inOld bool
 	// resolveLocal resolves a source-level local variable name (loop invariants)
 	resolveLocal func(name string) (Val, bool)
 }
@@ -169,6 +170,49 @@ func (e *SpecEnv) unify(a, b Term) (Term, Term) {
 		e.bad("bit-vector width mismatch: %s (%d) vs %s (%d)", a.S, a.T.W, b.S, b.T.W)
 	}
 	return a, b
+}
+
+// evalAs evaluates x where a value of sort s is expected (literals and conditionals adapt to it).
+func (e *SpecEnv) evalAs(x *SX, s *Sort) Term {
+	if x.Op == "ite" {
+		c := e.evalBool(x.Args[0])
+		return ite(c, e.evalAs(x.Args[1], s), e.evalAs(x.Args[2], s))
+	}
+	t := e.eval(x)
+	if isLit(t) {
+		return e.coerce(t, s)
+	}
+	if s.K == KInt && t.T.K == KBV {
+		return e.u.toInt(t)
+	}
+	if s.K == KReal && t.T.K == KInt {
+		return Term{"(to_real " + t.S + ")", sReal}
+	}
+	return t
+}
+
+// evalGoal evaluates a clause that is about to be proved: universal quantifiers in positive position
+// (top level, right of ==>, conjuncts) are replaced by fresh constants (skolemisation of the negated goal).
+func (e *SpecEnv) evalGoal(x *SX) Term {
+	u := e.u
+	switch {
+	case x.Op == "forall":
+		n := *e
+		n.bound = map[string]Term{}
+		for k, v := range e.bound {
+			n.bound[k] = v
+		}
+		for i, bn := range x.BindNames {
+			s := u.eng.sortByName(u.tc, x.BindTypes[i], e.pkg)
+			n.bound[bn] = u.declare("sk_"+bn, s)
+		}
+		return n.evalGoal(x.Args[0])
+	case x.Op == "bin" && x.Tok == "==>":
+		return implies(e.evalBool(x.Args[0]), e.evalGoal(x.Args[1]))
+	case x.Op == "bin" && x.Tok == "&&":
+		return and(e.evalGoal(x.Args[0]), e.evalGoal(x.Args[1]))
+	}
+	return e.evalBool(x)
 }
 
 func (e *SpecEnv) evalBool(x *SX) Term {
@@ -339,13 +383,14 @@ func (e *SpecEnv) ident(x *SX) Term {
 			return e.valTerm(name, v)
 		}
 	}
-	if v, ok := e.vars[name]; ok {
-		return e.valTerm(name, v)
-	}
-	if e.resolveLocal != nil {
+	if e.resolveLocal != nil && !e.inOld {
+		// inside a loop invariant a name denotes the current value of the variable (parameters are mutable)
 		if v, ok := e.resolveLocal(name); ok {
 			return e.valTerm(name, v)
 		}
+	}
+	if v, ok := e.vars[name]; ok {
+		return e.valTerm(name, v)
 	}
 	if g, ok := u.eng.ghosts[name]; ok {
 		return u.ghost(e.st, name, g)
@@ -673,6 +718,7 @@ func (e *SpecEnv) call(x *SX) Term {
 		}
 		n := *e
 		n.st = e.old
+		n.inOld = true
 		return n.eval(args[0])
 	case "len":
 		a := e.eval(args[0])
@@ -758,6 +804,38 @@ func (e *SpecEnv) call(x *SX) Term {
 			s32 := bvSort(32, true)
 			return sel(u.heap(e.st, "G.cb_a"+k+"_"+sanitize(u.tc.smt(s32)), "(Array Int (_ BitVec 32))"), i, s32)
 		}
+	case "typeid":
+		// typeid(T): the tag of dynamic type T inside interface values (T is a Go type name, e.g. uint16, smf.MetricTicks)
+		if args[0].Op == "ident" {
+			return Term{fmt.Sprint(u.eng.typeTagByName(args[0].Tok, e.pkg)), sInt}
+		}
+		if args[0].Op == "field" && args[0].Args[0].Op == "ident" {
+			return Term{fmt.Sprint(u.eng.typeTagByName(args[0].Args[0].Tok+"."+args[0].Tok, e.pkg)), sInt}
+		}
+		if args[0].Op == "un" && args[0].Tok == "*" {
+			inner := args[0].Args[0]
+			if inner.Op == "field" {
+				return Term{fmt.Sprint(u.eng.typeTagByName("*"+inner.Args[0].Tok+"."+inner.Tok, e.pkg)), sInt}
+			}
+			return Term{fmt.Sprint(u.eng.typeTagByName("*"+inner.Tok, e.pkg)), sInt}
+		}
+		e.bad("typeid needs a type name")
+	case "ival":
+		a := e.eval(args[0])
+		if a.T.K != KIface {
+			e.bad("ival needs an interface value")
+		}
+		return Term{"(i-val " + a.S + ")", sInt}
+	case "bval":
+		// the fixed-width payload of an interface value, as a 64-bit vector
+		a := e.eval(args[0])
+		if a.T.K != KIface {
+			e.bad("bval needs an interface value")
+		}
+		return Term{"(i-bv " + a.S + ")", bvSort(64, false)}
+	case "isint":
+		a := e.eval(args[0])
+		return Term{"(is_int " + a.S + ")", sBool}
 	case "typeof":
 		a := e.eval(args[0])
 		if a.T.K != KIface {
@@ -799,8 +877,8 @@ func (e *SpecEnv) call(x *SX) Term {
 		}
 		var ts []Term
 		for i, a := range args {
-			t := e.eval(a)
 			ps := sf.ParamSorts[i]
+			t := e.evalAs(a, ps)
 			if isLit(t) {
 				t = e.coerce(t, ps)
 			} else if ps.K == KInt && t.T.K == KBV {
